@@ -861,6 +861,7 @@ var harnessNames = map[string]ExtFn{
 	"vDir":      hDir,
 	"vSymbolic": func(in *Interp, fn *ssa.Function, args []Value) Value { return mkBool(true) },
 	"vFSLog":    hFSLog,
+	"vFSMark":   func(in *Interp, fn *ssa.Function, args []Value) Value { return nil },
 	"vCorpusFile": hCorpusFile,
 	"vParam":    hParam,
 	"vMapOrderSite": hMapOrderSite,
